@@ -492,6 +492,25 @@ def direct_oracles(ctx, n_pairs):
                 break
         if du.resolution_delta(d0, (0, "day")) != d0 or du.resolution_delta(d0, (0, "month"), True) != d0:
             fails.append({"law": "zero-shift", "d": str(d0), "k": "resolution_delta 0", "got": "moved"})
+    # history independence: the same calls in another order (and repeated many times) give the same results --
+    # bounded caches, memo tables keyed too coarsely and "after N calls" state only show up this way
+    calls = []
+    for d0 in bd[:1500]:
+        calls.append(("add_months", d0, rng.choice([-13, -12, -1, 0, 1, 2, 11, 12, 13, 24, 0.5, -0.5, 1.25])))
+        calls.append(("dev_lag_months", d0, bd[rng.randrange(len(bd))]))
+    for y in (1900, 1996, 2000, 2004, 2023, 2024, 2096, 2100):
+        for dd in (datetime.date(y, 1, 31), datetime.date(y, 2, 28), datetime.date(y, 3, 31)):
+            calls += [("add_months", dd, 1), ("add_months", dd, -1), ("dev_lag_months", dd, datetime.date(y, 3, 31))]
+    run_ = lambda c: getattr(du, c[0])(c[1], c[2])  # noqa: E731
+    first = [run_(c) for c in calls]
+    second = [run_(c) for c in reversed(calls)][::-1]
+    third = [run_(c) for c in calls]
+    for c, a1, a2, a3 in zip(calls, first, second, third):
+        if repr(a1) != repr(a2) or repr(a1) != repr(a3):
+            fails.append({"law": "history-independence", "call": c[0], "a": str(c[1]), "b": str(c[2]),
+                          "got": f"{a1!r} / {a2!r} / {a3!r} (first pass / reversed order / third pass)"})
+            break
+    ctx.hist("oracle:history-independence", 3 * len(calls))
     ctx.hist("oracle:unit-refusal+zero-shift", 206)
     ctx.hist("oracle:unit-dispatch", 3000)
     ctx.count(evaluations=n + nshift + 20000 + 1572 + 3000)
